@@ -43,6 +43,9 @@ def export(events):
 # ---------------------------------------------------------------------------------- worker side
 def _setup_worker():
     os.environ["MORE_EXECUTORS_VERIF"] = "1"
+    import logging
+    logging.lastResort = logging.NullHandler()
+    logging.raiseExceptions = False
     if REPO not in sys.path:
         sys.path.insert(0, REPO)
     stubs = os.path.join(ROOT, "stubs")
